@@ -426,6 +426,22 @@ def pred_c20(prog, tr):
     return bad
 
 
+def pred_c19(prog, tr):
+    """CanVisualizeError is true exactly when Visualize has something to draw: the executor also hands the error of a
+    failed Invoke over inside a multi-error (errors.Join) and reports both answers"""
+    bad = []
+    for i, o in enumerate(ops_of(tr)):
+        vj = o.get("vizJoin") if isinstance(o, dict) else None
+        if not vj:
+            continue
+        if vj.get("panic"):
+            bad.append("op %d: visualising a joined error: %s" % (i, vj["panic"][:120]))
+        elif vj["can"] == vj["same"]:
+            bad.append("op %d: for the error wrapped in a multi-error CanVisualizeError says %s, yet the picture is %s the one drawn without an error"
+                       % (i, vj["can"], "the same as" if vj["same"] else "different from"))
+    return bad
+
+
 def pred_c18(prog, tr):
     """a rejected Provide or Decorate leaves its Info struct untouched (the executor hands the struct over already
     filled and reports `info` on a rejected operation only when it was written to)"""
@@ -443,7 +459,7 @@ def pred_none(prog, tr):
 PRED = {
     "C01": pred_c03, "C02": pred_c02, "C03": pred_c03, "C04": pred_none, "C05": pred_c05, "C06": pred_c14, "C07": pred_c07,
     "C08": pred_none, "C09": pred_none, "C10": pred_none, "C11": pred_none, "C12": pred_c02, "C13": pred_c13,
-    "C14": pred_c14, "C15": pred_none, "C16": pred_none, "C17": pred_c17, "C18": pred_c18, "C19": pred_none, "C20": pred_c20,
+    "C14": pred_c14, "C15": pred_none, "C16": pred_none, "C17": pred_c17, "C18": pred_c18, "C19": pred_c19, "C20": pred_c20,
 }
 
 
